@@ -416,6 +416,7 @@ func c19Errors(p *load.Prog, r *oblig.Run, g *cg.Graph) {
 	c19Unique(p, r)
 	c19Tabs(p, r)
 	c19CacheKeys(p, r)
+	c19FileNames(p, r)
 	r.Rule("R19.f", "a failing file writer is reported: write errors on the publish path are propagated, stored into the returned error, or panicked with - never dropped; the worker loop ends on the first error", 4)
 	var roots []cg.Target
 	for _, n := range []string{"Publish"} {
@@ -435,6 +436,8 @@ func c19Errors(p *load.Prog, r *oblig.Run, g *cg.Graph) {
 				return "FileWriter.WriteFile"
 			case "Close":
 				return "Close"
+			case "Flush":
+				return "Flush"
 			}
 			return ""
 		}
@@ -444,6 +447,10 @@ func c19Errors(p *load.Prog, r *oblig.Run, g *cg.Graph) {
 		}
 		if cal.Pkg != nil && cal.Pkg.Pkg.Path() == "os" && cal.Name() == "Close" {
 			return "os.File.Close"
+		}
+		// a buffered writer reports the failed write of its last chunk only when it is flushed
+		if cal.Pkg != nil && cal.Pkg.Pkg.Path() == "bufio" && cal.Name() == "Flush" {
+			return "bufio.Writer.Flush"
 		}
 		return ""
 	}
